@@ -158,6 +158,16 @@ func CheckC20(run *evid.Run) {
 			switch x := rng.Intn(100); {
 			case x < 35 && len(ids) < nIDs:
 				id := fmt.Sprintf("id-%d-%d", i, len(ids))
+				if rng.Intn(2) == 0 {
+					// ask other instances about the id BEFORE it exists (must be absent), then create it elsewhere
+					for w := range inst {
+						if w != who && rng.Intn(2) == 0 {
+							log("probe-before-create(%s)@%d", id, w)
+							probe(id, w)
+						}
+					}
+					run.Count("ids_probed_before_creation_elsewhere", 1)
+				}
 				p, err := inst[who].CreateKey(ctx, id)
 				if err != nil {
 					run.Violate("C20/createkey-error", det(), wit(), "CreateKey failed: %v", err)
